@@ -106,6 +106,27 @@ func (c *Ctx) unsubscribeHandler() *ssa.Function {
 }
 
 // loopOver finds the range loop of fn whose subject is the result of a call matched by m.
+// loopOverVia: the loop over the result of a call matched by m, in fn itself or in a helper of fn's package that fn
+// hands the result to; host is the function holding the loop, above the call site of the helper (nil for fn itself).
+func (c *Ctx) loopOverVia(fn *ssa.Function, m func(*ssa.Call) bool) (host *ssa.Function, l *ir.Loop, above []ssa.CallInstruction) {
+	if l := loopOver(fn, m); l != nil {
+		return fn, l, nil
+	}
+	for _, call := range ir.Calls(fn) {
+		callee := call.Common().StaticCallee()
+		if callee == nil || callee.Blocks == nil || callee.Pkg != fn.Pkg {
+			continue
+		}
+		site := []ssa.CallInstruction{call}
+		for _, l := range ir.Loops(callee) {
+			if rangesOverCallResultVia(l, m, 0, site) {
+				return callee, l, site
+			}
+		}
+	}
+	return fn, nil, nil
+}
+
 func loopOver(fn *ssa.Function, m func(*ssa.Call) bool) *ir.Loop {
 	for _, l := range ir.Loops(fn) {
 		if rangesOverCallResult(l, m, 0) {
@@ -341,6 +362,12 @@ func appendedByte(call *ssa.Call) ssa.Value {
 
 // elementOfParallel: v is y[i] where y is the result of a call matched by m and i the loop index.
 func elementOfParallel(v ssa.Value, l *ir.Loop, m func(*ssa.Call) bool) bool {
+	return elementOfParallelVia(v, l, m, nil)
+}
+
+// elementOfParallelVia: as elementOfParallel for a loop in a helper; the parallel slice may be a parameter of the
+// helper and is then resolved through the call sites `above`.
+func elementOfParallelVia(v ssa.Value, l *ir.Loop, m func(*ssa.Call) bool, above []ssa.CallInstruction) bool {
 	u, ok := ir.SeeThrough(v).(*ssa.UnOp)
 	if !ok {
 		return false
@@ -349,7 +376,8 @@ func elementOfParallel(v ssa.Value, l *ir.Loop, m func(*ssa.Call) bool) bool {
 	if !ok {
 		return false
 	}
-	src, ok := ir.SeeThrough(ia.X).(*ssa.Call)
+	rs, _ := resolveChain(ia.X, above)
+	src, ok := ir.SeeThrough(rs).(*ssa.Call)
 	if !ok || !m(src) {
 		return false
 	}
